@@ -87,6 +87,7 @@ def s_converge(F, res):
         res.add([finding("S-CONVERGE", key2, "crates/tx3-tir/src/compile.rs", "CompiledTx equality is hand-written or missing: convergence may ignore the fee or the payload")])
 
 
+_KEEP5 = []
 ARITH_OPS = ("Add", "Sub", "Mul", "Div", "Rem", "AddWithOverflow", "SubWithOverflow", "MulWithOverflow", "Shl", "Shr", "BitAnd", "BitOr", "BitXor")
 
 
@@ -313,9 +314,15 @@ def s_feeflow(F, res):
         res.add([ok("S-FEEFLOW", key1, where(g), "no CompiledTx aggregate or field assignment in tx3_resolver; %d Some(eval) returns are compile()'s result" % nsome)])
     reported_fee_clause(F, res)
     # body fee = template fees
-    b = F.fns[roles.builder_of(F, "tx3_cardano", "::TransactionBody")]
+    b0 = F.fns[roles.builder_of(F, "tx3_cardano", "::TransactionBody")]
+
+    def want_b(t_, callee):
+        # the builder's own small helpers (`compile_fee(tx)`), not the coercions the rule names
+        return callee["crate"] == "tx3_cardano" and not callee.get("impl_trait") and not callee.get("trait_default") and len(callee["blocks"]) <= 40 and "::coercion::" not in callee["path"]
+    _KEEP5.append(want_b)
+    b = mir.inline_calls(F, b0, want=want_b, depth=2)
     du3 = mir.DefUse(b)
-    key3 = b["path"] + "|body fee is the template's fees expression"
+    key3 = b0["path"] + "|body fee is the template's fees expression"
     good3 = False
     for bi, si, s in mir.stmts(b):
         rv = s["rv"]
